@@ -324,31 +324,42 @@ class Universe:
             return z3.ArraySort(self.sort(t.elem), z3.BoolSort())
         if isinstance(t, TMap):
             return z3.ArraySort(self.sort(t.k), self.sort(t.v))
+        # constructor / accessor names are unique per datatype (SMT-LIB front ends other than z3 reject overloaded
+        # constructors); the short names stay available as Python attributes of the sort object
         if isinstance(t, TDict):
-            dt = z3.Datatype(_mangle("Dict", t.key))
-            dt.declare("mkdict", ("dom", z3.ArraySort(self.sort(t.k), z3.BoolSort())),
-                       ("val", z3.ArraySort(self.sort(t.k), self.sort(t.v))))
+            n = _mangle("Dict", t.key)
+            dt = z3.Datatype(n)
+            dt.declare("mkdict!" + n, ("dom!" + n, z3.ArraySort(self.sort(t.k), z3.BoolSort())),
+                       ("val!" + n, z3.ArraySort(self.sort(t.k), self.sort(t.v))))
             dt = dt.create()
+            dt.mkdict, dt.dom, dt.val = dt.constructor(0), dt.accessor(0, 0), dt.accessor(0, 1)
             self._dts[t.key] = dt
             return dt
         if isinstance(t, TTuple):
-            dt = z3.Datatype(_mangle("Tup", t.key))
-            dt.declare("mktup", *[(f"it{i}", self.sort(e)) for i, e in enumerate(t.elems)])
+            n = _mangle("Tup", t.key)
+            dt = z3.Datatype(n)
+            dt.declare("mktup!" + n, *[(f"it{i}!" + n, self.sort(e)) for i, e in enumerate(t.elems)])
             dt = dt.create()
+            dt.mktup = dt.constructor(0) if t.elems else dt.constructor(0)()
             self._dts[t.key] = dt
             return dt
         if isinstance(t, TOpt):
-            dt = z3.Datatype(_mangle("Opt", t.key))
-            dt.declare("none")
-            dt.declare("some", ("get", self.sort(t.inner)))
+            n = _mangle("Opt", t.key)
+            dt = z3.Datatype(n)
+            dt.declare("none!" + n)
+            dt.declare("some!" + n, ("get!" + n, self.sort(t.inner)))
             dt = dt.create()
+            dt.none, dt.some, dt.get = dt.constructor(0)(), dt.constructor(1), dt.accessor(1, 0)
+            dt.is_none, dt.is_some = dt.recognizer(0), dt.recognizer(1)
             self._dts[t.key] = dt
             return dt
         if isinstance(t, TVal):
             fields = self.all_fields(t.cls)
-            dt = z3.Datatype(_mangle("V", t.cls))
-            dt.declare("mk", *[(f"f_{f}", self.sort(ft)) for f, ft in fields.items()])
+            n = _mangle("V", t.cls)
+            dt = z3.Datatype(n)
+            dt.declare("mk!" + n, *[(f"f_{f}!" + n, self.sort(ft)) for f, ft in fields.items()])
             dt = dt.create()
+            dt.mk = dt.constructor(0) if fields else dt.constructor(0)()
             self._dts[t.key] = dt
             return dt
         raise OutsideSubset(f"no sort for {t}")
